@@ -1,6 +1,7 @@
 import MxlVerif.Lemmas.C11
 import MxlVerif.Lemmas.C11Witness
 import MxlVerif.Lemmas.C11Keys
+import MxlVerif.Lemmas.C11Struct
 import MxlVerif.Model.Queries
 namespace Mxl.C11
 open Mxl.C07 (resEq)
@@ -15,10 +16,10 @@ theorem C11_roundtrip_partial (c : NContent) (hc : Canonical c) (h : refsResolve
     roundTrip [] c = .ok c.toContent :=
   roundTrip_ok c hc h
 
-/-- **Round trip, hypothesis on the input alone.**  If no key (`__name__` of a derived / reaction function,
-    `init_<name>` of an initial-assignment function, `<rxn>_stoich_<name>` of a coefficient function, the last two
-    moved off the component function names by `_free_name`) is shared by two different function objects, and no
-    component passes the same model name twice, the rebuilt model equals the original. -/
+/-- **Round trip, hypothesis on the input alone.**  If no `__name__` is shared by two different function objects
+    of derived quantities / reactions (`keysInjective`; the names generated for initial assignments and computed
+    coefficients need no condition, `_free_name` keeps them apart from every other key), and no component passes
+    the same model name twice, the rebuilt model equals the original. -/
 theorem C11_roundtrip_input (c : NContent) (hc : Canonical c)
     (hk : keysInjective c = true) (ha : argsNoDup c = true) :
     roundTrip [] c = .ok c.toContent :=
@@ -33,7 +34,23 @@ theorem C11_roundtrip_or_raises (c : NContent) (hc : Canonical c) (h : refsSrcOk
     roundTrip [] c = .ok c.toContent ∨ ∃ m, roundTrip [] c = .error (.valueError m) :=
   roundTrip_or_raises c hc h
 
-/-- … with the hypothesis on the input alone: no key shared by two different function objects -/
+/-- **Round trip, every model, no hypothesis on names or arguments** (after `fix: refuse to generate MxlPy source
+    for two different functions with the same name`): executing the generated source rebuilds *the same model*, or
+    no source is produced because generation raised ValueError (two different functions of derived quantities /
+    reactions with one name, or a definition that would repeat a parameter). -/
+theorem C11_roundtrip_or_raises_all (c : NContent) (hc : Canonical c) :
+    roundTrip [] c = .ok c.toContent ∨ ∃ m, roundTrip [] c = .error (.valueError m) :=
+  roundTrip_or_raises_all c hc
+
+/-- … in terms of behaviour: whenever the round trip produces a model at all, it is the original — every model -/
+theorem C11_roundtrip_model_is_original (c : NContent) (hc : Canonical c)
+    (c' : Content) (h : roundTrip [] c = .ok c') : c' = c.toContent := by
+  rcases roundTrip_or_raises_all c hc with h1 | ⟨m, h1⟩
+  · rw [h1] at h; cases h; rfl
+  · rw [h1] at h; cases h
+
+/-- … with the hypothesis on the input alone: no `__name__` shared by two different derived / reaction function
+    objects -/
 theorem C11_roundtrip_or_raises_input (c : NContent) (hc : Canonical c) (hk : keysInjective c = true) :
     roundTrip [] c = .ok c.toContent ∨ ∃ m, roundTrip [] c = .error (.valueError m) :=
   roundTrip_or_raises c hc (refsSrcOk_of_input c hk)
@@ -45,7 +62,34 @@ theorem C11_roundtrip_behaviour_or_raises (c : NContent) (hc : Canonical c) (hk 
   · rw [h1] at h; cases h; rfl
   · rw [h1] at h; cases h
 
+/-- **`_free_name` is fresh**: the name it returns is not in `taken` — for every set and every name; in particular the
+    loop of the executable model never runs out of its fuel `taken.length + 1`. -/
+theorem C11_free_name_fresh (taken : List String) (name : String) : freeName taken name ∉ taken :=
+  freeName_not_mem taken name
+
+/-- **Generated definitions are never confused — every model, no hypothesis.**  Whatever the functions are called,
+    a builder reference whose key is not the `__name__` of a derived quantity's / reaction's function (that is: the
+    reference of an initial assignment or of a computed stoichiometric coefficient) finds the definition generated
+    from its own function object.  (After `fix: a function name generated … is taken from then on`; before it two
+    generated names could coincide.) -/
+theorem C11_generated_definitions_own (c : NContent) (s : SymRepr) (hs : toSymbolicRepr [] c = .ok s) :
+    ∀ call ∈ (genProgram s).build, ∀ r ∈ call.refs, r.key ∉ takenOf s → refOk (genProgram s).defs r = true := by
+  rw [toSymbolicRepr_nil] at hs
+  cases hs
+  exact generated_refs_ok c
+
+/-- **Names, kinds, order and wiring survive — every model, no hypothesis** (also when function names collide):
+    the builder chain of the generated program declares the model's variables, parameters, derived quantities and
+    reactions with the same names and kinds in the same order, each function with the same model arguments, each
+    reaction with the same compounds in its stoichiometry (and the same arguments for computed coefficients). -/
+theorem C11_build_structure (c : NContent) (s : SymRepr) (hs : toSymbolicRepr [] c = .ok s) :
+    (genProgram s).build.map Call.head = heads c := by
+  rw [toSymbolicRepr_nil] at hs
+  cases hs
+  exact build_heads c
+
 example : keysInjective wShared = true ∧ argsNoDup wShared = true
+    ∧ keysInjective wFresh = true ∧ argsNoDup wFresh = true
     ∧ keysInjective wCross = true ∧ argsNoDup wCross = true
     ∧ keysInjective wCollide = false ∧ argsNoDup wDimer = false := by decide +kernel
 
@@ -64,8 +108,8 @@ theorem C11_roundtrip_queries (c : NContent) (hc : Canonical c) (h : refsResolve
       ∧ (∀ vars t, getRhsQ c' vars t = getRhsQ c.toContent vars t) :=
   ⟨_, roundTrip_ok c hc h, rfl, rfl, fun _ _ => rfl, fun _ _ => rfl, fun _ _ => rfl⟩
 
-/-- **The full statement is false of the unchanged code (F-C11-1).**  Two different functions named `f`:
-    the rebuilt model's derivative at x = 1 differs from the original's. -/
+/-- **"Preserves behaviour" without "or fails" is false.**  Two different functions named `f` (former F-C11-1):
+    generation refuses, so there is no rebuilt model whose derivative could equal the original's. -/
 theorem C11_roundtrip_full_false :
     ¬ (∀ c : NContent, Canonical c → ∀ t xs, rtCall [] c t xs = callRhs c.toContent t xs) := by
   intro h
@@ -75,11 +119,12 @@ theorem C11_roundtrip_full_false :
   revert h2
   decide +kernel
 
-/-- F-C11-1 witness, concretely: the original gives dx/dt = -(1*2)*(1+2) = -6, the rebuilt model -4 or -9 -/
+/-- former F-C11-1 witness, concretely: the original gives dx/dt = -(1*2)*(1+2) = -6; generation now raises
+    ValueError (it used to emit one `def f` for both functions: the rebuilt model gave -4 or -9) -/
 theorem C11_collision_witness :
     resEq (callRhs wCollide.toContent 0 [1]) (.ok [-6]) = true
-    ∧ resEq (rtCall [] wCollide 0 [1]) (.ok [-6]) = false
-    ∧ refsResolve wCollide = false := by decide +kernel
+    ∧ isValueError (roundTrip [] wCollide) = true
+    ∧ refsResolve wCollide = false ∧ keysInjective wCollide = false := by decide +kernel
 
 /-- former F-C11-2 witness (repaired): `mass_action_2s(A, A, k)` would be emitted as
     `def mass_action_2s(A, A, k)`; generation now raises ValueError instead of emitting a module that is not
@@ -105,6 +150,16 @@ theorem C11_cross_key_ok : refsResolve wCross = true ∧ freeName ["init_f", "g"
 
 example : roundTrip [] wCross = .ok wCross.toContent :=
   C11_roundtrip_partial wCross wCross_canonical C11_cross_key_ok.1
+
+/-- The class repaired by `fix: a function name generated … is taken from then on`: initial assignments with `a` and
+    `a_` next to a derived function `init_a`, and two different coefficient functions both called `f2` in one
+    reaction — every use gets its own definition, the hypothesis holds, the model is rebuilt exactly. -/
+theorem C11_fresh_keys_ok : refsResolve wFresh = true
+    ∧ defKeys wFresh = ["init_a_", "init_a__", "init_a", "g", "r_stoich_f2", "r_stoich_f2_"] := by
+  decide +kernel
+
+example : roundTrip [] wFresh = .ok wFresh.toContent :=
+  C11_roundtrip_partial wFresh wFresh_canonical C11_fresh_keys_ok.1
 
 /-- **Untranslatable functions.**  If a function used by any component cannot be translated, generation
     raises `ValueError` (no source is emitted). -/
